@@ -209,7 +209,8 @@ def build_harness(variant="asan", hooks=True, extra_defs=()):
         for sh_ in badh:
             if sh_ in rev:
                 src = os.path.join(REPO, "lib", "src", rev[sh_])
-                jobs2.append((src, os.path.join(out, "lib_" + rev[sh_][:-2] + ".o"), []))
+                if os.path.exists(src):       # (a renamed or split source file is picked up from lib/CMakeLists.txt by lib_sources())
+                    jobs2.append((src, os.path.join(out, "lib_" + rev[sh_][:-2] + ".o"), []))
         stub = os.path.join(out, "stub_tables.c")
         with open(stub, "w") as f:
             f.write('#include "kvh.h"\n')
